@@ -437,18 +437,66 @@ def r8_constpat(src, log, consts):
 
 
 
-def r11_bytelits(src, log, table):
-    """b"lit" -> blit_<n>()  ; table collects the generated external_body functions"""
-    toks = lex(src)
+def r15_erase_generics(src, log, names):
+    """`Name<..>` -> `Name` for shim types whose type/lifetime parameters are not modelled (e.g. NsReader<&[u8]>,
+    BytesStart<'_>)."""
+    toks = lex(src); s = sig(toks)
     edits = []
-    for t in toks:
+    for k, i in enumerate(s):
+        if toks[i].kind == "ident" and toks[i].text in names and k + 1 < len(s) and toks[s[k + 1]].text == "<":
+            depth, j = 0, k + 1
+            while j < len(s):
+                tx = toks[s[j]].text
+                if tx == "<":
+                    depth += 1
+                elif tx == ">" and toks[s[j - 1]].text != "-":
+                    depth -= 1
+                    if depth == 0:
+                        break
+                j += 1
+            edits.append((toks[s[k + 1]].start, toks[s[j]].end, ""))
+    log["R15"] = log.get("R15", 0) + len(edits)
+    return _replace(src, edits)
+
+
+
+def r11_bytelits(src, log, table):
+    """b"lit" -> blit_<n>()  ; table collects the generated external_body functions.
+    `E == b"lit"` (slice equality against a literal) -> `bytes_eq(E, blit_<n>())`, where the shim
+    bytes_eq(a, b) ensures r == (a@ == b@): std's PartialEq for slices (same length, elementwise equal)."""
+    toks = lex(src); m = match_brackets(toks); s = sig(toks)
+    edits = []
+    neq = 0
+    for k, i in enumerate(s):
+        t = toks[i]
         if t.kind == "str" and t.text.startswith('b"'):
             val = byte_string_value(t.text)
             key = t.text
             if key not in table:
                 table[key] = ("blit_%d" % len(table), val)
-            edits.append((t.start, t.end, table[key][0] + "()"))
+            call = table[key][0] + "()"
+            if k >= 2 and toks[s[k - 1]].text == "=" and toks[s[k - 2]].text == "=" and toks[s[k - 3]].text not in "=!<>":
+                # walk back over the left operand to the nearest boundary at depth 0
+                j = k - 3
+                while j >= 0:
+                    tj = toks[s[j]]
+                    if tj.text in ")]}":
+                        j = s.index(m[s[j]]) - 1
+                        continue
+                    if tj.text in "({[;,|" or (tj.text == "&" and toks[s[j - 1]].text == "&") or \
+                            (tj.kind == "ident" and tj.text in ("if", "return", "let", "match")) or \
+                            (tj.text == ">" and toks[s[j - 1]].text == "=") or (tj.text == "=" and toks[s[j - 1]].text not in "=!<>"):
+                        break
+                    j -= 1
+                lhs_a = toks[s[j + 1]].start
+                lhs = src[lhs_a:toks[s[k - 2]].start].strip()
+                edits.append((lhs_a, t.end, "bytes_eq(%s, %s)" % (lhs, call)))
+                neq += 1
+            else:
+                edits.append((t.start, t.end, call))
     log["R11"] = log.get("R11", 0) + len(edits)
+    if neq:
+        log["R11.eq"] = log.get("R11.eq", 0) + neq
     return _replace(src, edits)
 
 
@@ -604,6 +652,8 @@ def r7_apply(src, log, map_kind="result"):
                 j = k - 1
                 while j >= 0:
                     tj = toks[s[j]]
+                    if tj.text == "}" and toks[s[j + 1]].text not in (".", "?"):
+                        break      # end of a block statement: not part of the receiver
                     if tj.text in ")]}":
                         j = s.index(m[s[j]]) - 1
                         continue
@@ -689,6 +739,7 @@ class UnitResult:
     lines: list
     functions: list = field(default_factory=list)   # dicts for the evidence
     bytelits: dict = field(default_factory=dict)
+    bytelit_map: dict = field(default_factory=dict)
 
     def text(self):
         return "\n".join(l.text for l in self.lines) + "\n"
@@ -741,6 +792,10 @@ def process_template(tpl_path: str, repo: str, variant: dict | None = None) -> U
             i += 1
             continue
         if dm.group(1) == "bytelits":
+            # optional mapping  <literal text>=<spec fn name>  (the generated accessor then ensures r@ == <spec fn>()
+            # and a generated proof fn checks that the property's spec name has exactly the literal's bytes)
+            for mm in re.finditer(r"(\S+)=([\w:]+)", dm.group(2)):
+                res.bytelit_map[mm.group(1)] = mm.group(2)
             res.lines.append(GenLine("//@@BYTELITS@@", ("gen", "bytelits")))
             i += 1
             continue
@@ -806,11 +861,21 @@ def process_template(tpl_path: str, repo: str, variant: dict | None = None) -> U
     for gl in res.lines:
         if gl.text == "//@@BYTELITS@@":
             for lit, (nm, val) in res.bytelits.items():
+                seqtxt = ("seq![%s]" % ", ".join("%du8" % x for x in val)) if val else "Seq::<u8>::empty()"
+                try:
+                    key = val.decode("ascii")
+                except UnicodeDecodeError:
+                    key = None
+                spec = res.bytelit_map.get(key)
                 out.append(GenLine("#[verifier::external_body]", ("gen", "bytelit")))
-                out.append(GenLine("pub fn %s() -> (r: &'static [u8]) ensures r@ == seq![%s] { %s }"
-                                   % (nm, ", ".join("%du8" % x for x in val) if val else "", lit) if val else
-                                   "pub fn %s() -> (r: &'static [u8]) ensures r@ == Seq::<u8>::empty() { %s }" % (nm, lit),
-                                   ("gen", "bytelit")))
+                if spec:
+                    # the accessor's (trusted, generated) contract is justified by the Verus-checked lemma emitted next to it
+                    idfn = res.bytelit_map.get("idfn", "name_id")
+                    out.append(GenLine("pub fn %s() -> (r: &'static [u8]) ensures %s(r@) == %s { %s }" % (nm, idfn, spec, lit), ("gen", "bytelit")))
+                    out.append(GenLine("pub proof fn %s_matches_spec() ensures %s(%s) == %s { reveal(%s); }"
+                                       % (nm, idfn, seqtxt, spec, idfn), ("tpl", 0, "bytelit.%s.code_literal_is_%s" % (nm, spec), "contract")))
+                else:
+                    out.append(GenLine("pub fn %s() -> (r: &'static [u8]) ensures r@ == %s { %s }" % (nm, seqtxt, lit), ("gen", "bytelit")))
         else:
             out.append(gl)
     res.lines = out
@@ -886,6 +951,8 @@ def _gen_function(kv, sections, repo, res: UnitResult, variant) -> list:
         if "R3" in rules:
             sig_text = r3_await(sig_text, log)
         sig_text = r13_retname(sig_text, log)
+        if "R15" in rules:
+            sig_text = r15_erase_generics(sig_text, log, set(kv.get("erase", "NsReader,BytesStart,BytesEnd").split(",")))
         if kv.get("rename"):
             sig_text = re.sub(r"\bfn\s+%s\b" % re.escape(kv["fn"]), "fn " + kv["rename"], sig_text, count=1)
             log["rename"] = kv["rename"]
@@ -899,6 +966,8 @@ def _gen_function(kv, sections, repo, res: UnitResult, variant) -> list:
             body = r11_bytelits(body, log, res.bytelits)
         elif r == "R13":
             pass
+        elif r == "R15":
+            body = r15_erase_generics(body, log, set(kv.get("erase", "NsReader,BytesStart,BytesEnd").split(",")))
         elif r == "R14":
             body = r14_constcall(body, log, set(kv.get("consts", "").split(",")))
         elif r == "R5":
